@@ -41,6 +41,18 @@ from ...utils import decorators
 from .local_plots import spectra_histogram
 
 
+def _powerlaw_terms(spectra):
+    """mp = 1 - index, a^mp, x = mp ln(b/a) and ln(b/a) for the bounds a, b (GeV).
+
+    b^mp - a^mp is evaluated as a^mp expm1(x), which does not cancel for indices close
+    to 1 or narrow bounds (where the difference of the two powers rounds to zero).
+    """
+    mp = 1 - spectra.index
+    ln10 = np.log(10.0)
+    ln_ba = (spectra.upper_bound - spectra.lower_bound) * ln10
+    return mp, np.exp(mp * spectra.lower_bound * ln10), mp * ln_ba, ln_ba
+
+
 @decorators.nss_result_plot(spectra_histogram)
 @decorators.nss_result_store("log_e_nu")
 def energy_spectra(
@@ -55,18 +67,15 @@ def energy_spectra(
         return np.full(shape=(N), fill_value=spectra.log_nu_energy)
 
     if isinstance(spectra, Simulation.PowerSpectrum):
-        p = spectra.index
-        a = 10**spectra.lower_bound
-        b = 10**spectra.upper_bound
-        mp = 1 - p
+        mp, _, x, ln_ba = _powerlaw_terms(spectra)
         u = np.random.uniform(0.0, 1.0 + np.finfo(np.float64).eps, size=N)
         if mp == 0:
             # dN/dE ~ 1/E: uniform in log E
-            log_e_nu = spectra.lower_bound + u * (
-                spectra.upper_bound - spectra.lower_bound
-            )
+            ln_e_over_a = u * ln_ba
         else:
-            log_e_nu = np.reciprocal(mp) * np.log10(u * (b**mp - a**mp) + a**mp)
+            # E^mp = a^mp + u (b^mp - a^mp) = a^mp (1 + u expm1(x))
+            ln_e_over_a = np.log1p(u * np.expm1(x)) / mp
+        log_e_nu = spectra.lower_bound + ln_e_over_a / np.log(10.0)
         # rounding (and u in [1, 1 + eps)) must not leave the configured range
         return np.clip(log_e_nu, spectra.lower_bound, spectra.upper_bound)
 
@@ -86,13 +95,10 @@ def spec_norm(
         return 1.0
 
     if isinstance(spectra, Simulation.PowerSpectrum):
-        p = spectra.index
-        a = 10**spectra.lower_bound
-        b = 10**spectra.upper_bound
-        mp = 1 - p
+        mp, a_mp, x, ln_ba = _powerlaw_terms(spectra)
         if mp == 0:
-            return 1.0 / np.log(b / a)
-        return mp / (b**mp - a**mp)
+            return 1.0 / ln_ba
+        return mp / (a_mp * np.expm1(x))
 
     return 1.0
 
@@ -106,13 +112,10 @@ def sum_spec_weights(
         return 1.0
 
     if isinstance(spectra, Simulation.PowerSpectrum):
-        p = spectra.index
-        a = 10**spectra.lower_bound
-        b = 10**spectra.upper_bound
-        mp = 1 - p
+        mp, a_mp, x, ln_ba = _powerlaw_terms(spectra)
         if mp == 0:
-            return np.log(b / a)
-        return (b**mp - a**mp) / mp
+            return ln_ba
+        return (a_mp * np.expm1(x)) / mp
 
     return 1.0
 
